@@ -26,7 +26,7 @@ func init() {
 			}
 			c.defNat(n, v)
 		}
-		return emitFns(c, []fnRef{
+		return pdEmitFns(c, []pdFnRef{
 			{twd, "ThreeWayDiffer", "Next", "twNext", true},
 			{twd, "", "NewThreeWayDiffer", "newThreeWayDiffer", false},
 			{twd, "ThreeWayDiffer", "newLeftEdit", "newLeftEdit", true},
